@@ -6,7 +6,7 @@ from ..engines import uijson
 class C14(Check):
     pid = "C14"
     level = "exploration"
-    budgets = {"quick": (120, 16), "thorough": (1800, 16)}
+    budgets = {"quick": (120, 16), "thorough": (1500, 16)}
     ops_key = "forms"
     rule = (
         "A program = workspace spec (1-3 Points/Curve objects with float/int/text data and property groups of "
